@@ -33,7 +33,7 @@ class EnumBase(SimpleModel):
     @staticmethod
     def validate_string(cls, value):
         return (    SimpleModel.validate_string(cls, value)
-                and value in cls.__values__
+                and (value is None or value in cls.__values__)
             )
 
 def Enum(*values, **kwargs):
